@@ -23,7 +23,7 @@ CONSTANTS MaxArgs, GlobFilters, WalkSkipsLinks, ForceAppliesIgnore, DoDump
 VARIABLES st, args, k, seen, result, pc
 vars == <<st, args, k, seen, result, pc>>
 
-U == [i \in 1..13 |->
+U == [i \in 1..15 |->
        CASE i = 1  -> [name |-> "a.md", dir |-> <<>>, ext |-> "md", size |-> "small", link |-> "none", to |-> 0]
          [] i = 2  -> [name |-> "b.txt", dir |-> <<>>, ext |-> "txt", size |-> "small", link |-> "none", to |-> 0]
          [] i = 3  -> [name |-> "big.md", dir |-> <<>>, ext |-> "md", size |-> "big", link |-> "none", to |-> 0]
@@ -36,8 +36,11 @@ U == [i \in 1..13 |->
          [] i = 10 -> [name |-> "ln_in.md", dir |-> <<>>, ext |-> "md", size |-> "small", link |-> "file", to |-> 1]
          [] i = 11 -> [name |-> "ln_out.md", dir |-> <<>>, ext |-> "md", size |-> "small", link |-> "file", to |-> 99]
          [] i = 12 -> [name |-> "ln_dangling.md", dir |-> <<>>, ext |-> "md", size |-> "small", link |-> "dangling", to |-> 98]
-         [] i = 13 -> [name |-> "f.txt", dir |-> <<"sub">>, ext |-> "txt", size |-> "small", link |-> "none", to |-> 0]]
-Ids == 1..13
+         [] i = 13 -> [name |-> "f.txt", dir |-> <<"sub">>, ext |-> "txt", size |-> "small", link |-> "none", to |-> 0]
+         \* a directory whose NAME looks like an included file: include patterns apply to file names, not to the directories above them
+         [] i = 14 -> [name |-> "raw.dat", dir |-> <<"notes.md">>, ext |-> "dat", size |-> "small", link |-> "none", to |-> 0]
+         [] i = 15 -> [name |-> "in.md", dir |-> <<"notes.md">>, ext |-> "md", size |-> "small", link |-> "none", to |-> 0]]
+Ids == 1..15
 Args == {".", "sub", "ln_dir", "drafts", "a.md", "./a.md", "node_modules/x.md", "big.md", "ign.md", "drafts/e.md", "*.md", "**/*.md", "sub/*"}
 Settings == [extinc : BOOLEAN, excl : BOOLEAN, extexcl : {"none", "base", "path"}, force : BOOLEAN, limit : BOOLEAN, toolign : BOOLEAN]
 
